@@ -1,5 +1,6 @@
 import Sourcer.Proofs.Refine
 import Sourcer.Proofs.Bounds
+import Sourcer.Proofs.PrepareProofs
 /-
   Property theorems (statements only; proofs are one-liners over Sourcer/Proofs/*).
   Every theorem is followed by an `example` showing its hypotheses are met by a concrete,
@@ -192,5 +193,122 @@ example : peg exP [97, 98] 6 (.sep (.str [97] false) (.str [98] false) ⟨true, 
     = some (.ok (.list [.str [97]]) 2) := by rfl
 example : peg exP [97, 98] 6 (.sep (.str [97] false) (.str [98] false) ⟨true, false, true, false⟩) 0
     = some (.ok (.list [.str [97]]) 1) := by rfl
+
+/-! ## C04 – ignored patterns are skipped exactly at token boundaries -/
+
+theorem setSkipList_refs (is : List Nat) : setSkipList (is.map .ref) = is.map .ref := by
+  induction is with
+  | nil => rfl
+  | cons i is ih => simp [setSkipList, setSkip, ih]
+
+/-- (a) with at least one ignore declaration, every literal of every rule of the prepared
+    grammar – the ignored rules' own literals included – skips ignorable text after matching -/
+theorem C04_every_literal_skips (rules : List RuleDef) (h : ignoredIdxs rules 0 ≠ []) :
+    AllSkipList (prepare rules).bodies = true := by
+  have : (ignoredIdxs rules 0).isEmpty = false := by cases hh : ignoredIdxs rules 0 <;> simp_all
+  simp only [prepare, this, Bool.false_eq_true, ↓reduceIte]
+  exact allSkipList_setSkipList _
+
+/-- (b) the skip rule is `Skip(r₁, …, rₙ)` over exactly the rules declared `ignore`, in
+    declaration order, wherever they were declared -/
+theorem C04_ignored_rule (rules : List RuleDef) (h : ignoredIdxs rules 0 ≠ []) :
+    (prepare rules).ignored = some rules.length ∧
+    (prepare rules).bodies[rules.length]? = some (.skip ((ignoredIdxs rules 0).map .ref)) := by
+  have : (ignoredIdxs rules 0).isEmpty = false := by cases hh : ignoredIdxs rules 0 <;> simp_all
+  simp only [prepare, this, Bool.false_eq_true, ↓reduceIte]
+  refine ⟨trivial, ?_⟩
+  rw [setSkipList_getElem?, mapIdx_getElem?]
+  have hne : findStart rules 0 ≠ some rules.length := by
+    have : ∀ (rs : List RuleDef) (j i : Nat), findStart rs j = some i → i < j + rs.length := by
+      intro rs
+      induction rs with
+      | nil => intro j i h; simp [findStart] at h
+      | cons r rs ih =>
+        intro j i h
+        simp only [findStart] at h
+        split at h
+        · simp at h; subst h; simp
+        · have := ih _ _ h; simp; omega
+    intro heq
+    have := this rules 0 _ heq
+    omega
+  simp [hne, setSkip, setSkipList_refs]
+
+/-- (c) the leading skip sits in front of the start rule's expression … -/
+theorem C04_leading_skip (rules : List RuleDef) (h : ignoredIdxs rules 0 ≠ []) (i : Nat)
+    (r : RuleDef) (hs : findStart rules 0 = some i) (hr : rules[i]? = some r) :
+    (prepare rules).bodies[i]? = some (setSkip (addLeading rules.length r.body)) := by
+  have : (ignoredIdxs rules 0).isEmpty = false := by cases hh : ignoredIdxs rules 0 <;> simp_all
+  have hi : i < rules.length := by
+    rcases Nat.lt_or_ge i rules.length with hlt | hge
+    · exact hlt
+    · have : rules[i]? = none := by simp; omega
+      simp [this] at hr
+  have hget : rules[i] = r := by simpa [List.getElem?_eq_getElem hi] using hr
+  simp only [prepare, this, Bool.false_eq_true, ↓reduceIte]
+  rw [setSkipList_getElem?, mapIdx_getElem?]
+  simp [hs, List.getElem?_append_left, hi, hget]
+
+/-- … and no other rule body acquires a reference to the skip rule: ignorable text is skipped
+    at the start and after literals, and at no other point -/
+theorem C04_no_other_skip_point (rules : List RuleDef) (h : ignoredIdxs rules 0 ≠ []) (i : Nat)
+    (r : RuleDef) (hs : findStart rules 0 ≠ some i) (hr : rules[i]? = some r)
+    (hrefs : RefsBelow rules.length r.body = true) :
+    ∃ b, (prepare rules).bodies[i]? = some b ∧ RefsBelow rules.length b = true := by
+  have : (ignoredIdxs rules 0).isEmpty = false := by cases hh : ignoredIdxs rules 0 <;> simp_all
+  have hi : i < rules.length := by
+    rcases Nat.lt_or_ge i rules.length with hlt | hge
+    · exact hlt
+    · have : rules[i]? = none := by simp; omega
+      simp [this] at hr
+  refine ⟨setSkip r.body, ?_, by rw [refsBelow_setSkip]; exact hrefs⟩
+  have hget : rules[i] = r := by simpa [List.getElem?_eq_getElem hi] using hr
+  simp only [prepare, this, Bool.false_eq_true, ↓reduceIte]
+  rw [setSkipList_getElem?, mapIdx_getElem?]
+  simp [hs, List.getElem?_append_left, hi, hget]
+
+/-- (d) a literal of a prepared grammar: the literal, then the skip rule; what was skipped never
+    shows up in the value -/
+theorem C04_literal_then_skip (P : Program) (inp : List Nat) (fuel : Nat) (s : List Nat)
+    (p k : Nat) (v : Val) (p' : Nat) (hne : s.isEmpty = false) (hm : matchAt inp p s = true)
+    (hk : P.ignored = some k)
+    (hs : peg P inp fuel (.ref k) (p + s.length) = some (.ok v p')) :
+    peg P inp (fuel + 1) (.str s true) p = some (.ok (P.lit s) p') := by
+  simp [peg, hne, hm, pegSkipTo, hk, hs]
+
+/-- (e) the skip rule consumes a *maximal* run: where it stops, no ignored pattern matches -/
+theorem C04_skip_maximal (run : PRun) (xs : List Expr) :
+    ∀ fuel p v p', pegSkipLoop run xs fuel p = some (.ok v p') →
+    v = .none ∧ pegSkipAlts run p' xs = some none := by
+  intro fuel
+  induction fuel with
+  | zero => intro p v p' h; simp [pegSkipLoop] at h
+  | succ n ih =>
+    intro p v p' h
+    unfold pegSkipLoop at h
+    split at h
+    · simp at h
+    · exact ih _ _ _ h
+    · rename_i ha; simp at h; obtain ⟨h1, h2⟩ := h; subst h1 h2; exact ⟨rfl, ha⟩
+
+/-- The lengthening clause of C04 in full generality.  NOT proved (it needs a position-map
+    simulation between the two inputs); it is exercised on the implementation by a metamorphic
+    run only, and C04 is labelled partial for it. -/
+def C04_lengthening_statement : Prop :=
+  ∀ (P : Program) (inp inp' : List Nat) (fuel : Nat) (e : Expr) (v : Val) (p' : Nat),
+    -- `inp'` is `inp` with one more ignorable character inserted into a run that is skipped
+    (∃ pre w post, inp = pre ++ [w] ++ post ∧ inp' = pre ++ [w, w] ++ post) →
+    peg P inp fuel e 0 = some (.ok v p') → ∃ q, peg P inp' fuel e 0 = some (.ok v q)
+
+-- non-vacuity: `ignore " "+` / `start = "a" "b"`, prepared, on `" a  b "`
+def exRules : List RuleDef :=
+  [⟨false, .list (.str [32] false) 1 none, true⟩,
+   ⟨true, .seq [.str [97] false, .str [98] false], false⟩]
+example : ignoredIdxs exRules 0 ≠ [] := by decide
+example : findStart exRules 0 = some 1 := by decide
+example :
+    let Q := prepare exRules
+    peg ⟨Q.bodies, Q.ignored, fun _ _ _ => none, false⟩ [32, 97, 32, 32, 98, 32] 40 (.ref Q.start) 0
+      = some (.ok (.list [.str [97], .str [98]]) 6) := by rfl
 
 end Sourcer
